@@ -29,7 +29,7 @@ ACTIVE_EXCLUSIONS = {
     'C13-self-insert', 'C13-normalize-empty-text', 'C13-substringData-count-overflow', 'C13-setAttributeNode-self',
     'C13-setAttributeNodeNS-self-inuse', 'C13-setAttributeNS-keeps-prefix', 'C13-setAttributeNS-prefixed-lookup',
     'C13-document-fragment-partial-insert', 'C13-clone-firstchild-flag', 'C13-clone-attr-specified', 'C13-clone-loses-defaults',
-    'C13-document-replaceChild-self',
+    'C13-document-replaceChild-self', 'C13-setNamedItemNS-breaks-sort-order',
     # C14 findings
     'C14-iterator-unstepped-removechild',
     'C14-range-start-clamped-on-text-insert',
